@@ -559,3 +559,145 @@ pub fn binom(n: u64, k: u64) -> u64 {
     }
     r as u64
 }
+
+// ------------------------------------------------------------------------------------------------
+// child processes (other build profiles of the same harness)
+// ------------------------------------------------------------------------------------------------
+pub fn is_checked_build() -> bool {
+    cfg!(debug_assertions)
+}
+
+pub fn build_tag() -> &'static str {
+    if is_checked_build() {
+        "checked"
+    } else {
+        "release"
+    }
+}
+
+/// In a child run (`--child`), print the statistics as one line instead of writing evidence
+pub fn child_emit(st: &Stats) -> i32 {
+    let vio: Vec<Value> = st
+        .violations()
+        .iter()
+        .map(|v| json!({"key": v.key, "msg": v.msg, "case": v.case}))
+        .collect();
+    let counters: Map<String, Value> = st.counters.lock().unwrap().iter().map(|(k, v)| (k.clone(), json!(v))).collect();
+    let doc = json!({
+        "evaluations": st.evaluations.load(Ordering::Relaxed),
+        "nontrivial": st.nontrivial.load(Ordering::Relaxed),
+        "states": st.states.load(Ordering::Relaxed),
+        "transitions": st.transitions.load(Ordering::Relaxed),
+        "traces": st.traces.load(Ordering::Relaxed),
+        "violation_count": st.violation_count.load(Ordering::Relaxed),
+        "counters": Value::Object(counters),
+        "violations": vio,
+        "samples": Value::Array(st.samples.lock().unwrap().clone()),
+        "outcomes": st.outcomes.lock().unwrap().iter().cloned().collect::<Vec<String>>(),
+    });
+    println!("CHILD-RESULT {}", doc);
+    0
+}
+
+/// Run another build of this harness (`env_name` holds its path) as `<bin> <ID> --child <args..>` and
+/// merge its statistics; violations get `"build": tag` added to their case and `tag/` prefixed to the key.
+pub fn run_child_and_merge(ctx: &Ctx, st: &Stats, env_name: &str, tag: &str, args: &[String]) {
+    let bin = std::env::var(env_name).unwrap_or_else(|_| machinery_failure(&format!("{} not set (run through ./check)", env_name)));
+    let out = std::process::Command::new(&bin)
+        .arg(&ctx.id)
+        .arg("--tier")
+        .arg(ctx.tier_str())
+        .arg("--verif-dir")
+        .arg(&ctx.verif_dir)
+        .arg("--child")
+        .args(args)
+        .output()
+        .unwrap_or_else(|e| machinery_failure(&format!("cannot run {}: {}", bin, e)));
+    let stdout = String::from_utf8_lossy(&out.stdout);
+    let line = stdout.lines().find(|l| l.starts_with("CHILD-RESULT "));
+    let line = match line {
+        Some(l) => l,
+        None => machinery_failure(&format!(
+            "child {} {:?} gave no result (status {:?}): {} {}",
+            bin,
+            args,
+            out.status,
+            &stdout.chars().take(2000).collect::<String>(),
+            String::from_utf8_lossy(&out.stderr).chars().take(2000).collect::<String>()
+        )),
+    };
+    let doc: Value = serde_json::from_str(&line["CHILD-RESULT ".len()..]).unwrap_or_else(|e| machinery_failure(&format!("child result unparsable: {}", e)));
+    st.eval(doc["evaluations"].as_u64().unwrap_or(0));
+    st.nontriv(doc["nontrivial"].as_u64().unwrap_or(0));
+    st.state(doc["states"].as_u64().unwrap_or(0));
+    st.transition(doc["transitions"].as_u64().unwrap_or(0));
+    st.trace(doc["traces"].as_u64().unwrap_or(0));
+    if let Some(c) = doc["counters"].as_object() {
+        for (k, v) in c {
+            st.count(&format!("{}/{}", tag, k), v.as_u64().unwrap_or(0));
+        }
+    }
+    if let Some(o) = doc["outcomes"].as_array() {
+        for x in o {
+            st.outcome(x.as_str().unwrap_or(""));
+        }
+    }
+    if let Some(s) = doc["samples"].as_array() {
+        for x in s.iter().take(2) {
+            let mut x = x.clone();
+            if let Some(m) = x.as_object_mut() {
+                m.insert("build".into(), json!(tag));
+            }
+            st.sample(x);
+        }
+    }
+    let stored = doc["violations"].as_array().map(|a| a.len()).unwrap_or(0) as u64;
+    if let Some(v) = doc["violations"].as_array() {
+        for x in v {
+            let mut case = x["case"].clone();
+            if let Some(m) = case.as_object_mut() {
+                m.insert("build".into(), json!(tag));
+            }
+            st.violation(format!("{}/{}", tag, x["key"].as_str().unwrap_or("?")), x["msg"].as_str().unwrap_or("").to_string(), case);
+        }
+    }
+    let total = doc["violation_count"].as_u64().unwrap_or(0);
+    if total > stored {
+        st.violation_count.fetch_add(total - stored, Ordering::Relaxed);
+    }
+}
+
+/// Replay helper: a case recorded in another build is replayed by that build's binary.
+/// Returns None if the case belongs to this build.
+pub fn replay_delegate(id: &str, case: &Value) -> Option<Result<(), String>> {
+    let build = case["build"].as_str()?;
+    if build == build_tag() {
+        return None;
+    }
+    let env_name = match build {
+        "checked" => "RQ_BIN_CHECKED",
+        "release" => "RQ_BIN_RELEASE",
+        _ => return Some(Err(format!("unknown build {}", build))),
+    };
+    let bin = match std::env::var(env_name) {
+        Ok(b) => b,
+        Err(_) => {
+            // fall back to the conventional location
+            let base = std::env::var("RQ_VERIF_DIR").unwrap_or_else(|_| "/verif".into());
+            format!("{}/harness/target/{}/rqcheck", base, build)
+        }
+    };
+    let out = std::process::Command::new(&bin).arg(id).arg("--replay-case").arg(case.to_string()).output();
+    match out {
+        Err(e) => Some(Err(format!("cannot run {}: {}", bin, e))),
+        Ok(o) => {
+            let s = String::from_utf8_lossy(&o.stdout).to_string();
+            if o.status.code() == Some(0) {
+                Some(Ok(()))
+            } else {
+                let l = s.lines().find(|l| l.starts_with("REPLAY ")).unwrap_or("child replay failed").to_string();
+                Some(Err(l))
+            }
+        }
+    }
+}
